@@ -121,6 +121,23 @@ def run(ctx):
             data, scal = runlib.gen_inputs(spec, ext, rng, density=rng.choice([1.0, 0.8, 0.5]))
             cases.append(execlib.Case(spec, text, ext, data, scal, extra_ints=syms,
                                       meta={"flags": fl, "kind": kind, "a": es["a"], "b": es["b"], "loop": mp["loop-order"][es["out"]]}))
+    # two Einsums of one specification reading the same input through different affine expressions
+    stats["pairs"] = 0
+    for i in range(n // 12):
+        pr = specgen.gen_affine_pair(rng)
+        try:
+            spec = runlib.Spec(specgen.yaml_of(pr["decl"], pr["exprs"], pr["mapping"]))
+            text = spec.compile()
+        except Exception as e:
+            k = type(e).__name__ + ": " + re.sub(r"[A-Z]\d?\b", "R", str(e))[:60]
+            stats["rejected"][k] = stats["rejected"].get(k, 0) + 1
+            continue
+        stats["pairs"] += 1
+        fl = flags_of(text, pr["mapping"], "A")
+        for j in range(2):
+            ext = specgen.affine_extents(rng, pr)
+            data, scal = runlib.gen_inputs(spec, ext, rng, density=rng.choice([1.0, 0.8, 0.5]))
+            cases.append(execlib.Case(spec, text, ext, data, scal, meta={"flags": fl, "kind": "pair", "a": 0, "b": 0, "loop": pr["mapping"]["loop-order"]}))
     execlib.evaluate(cases, "c04")
     report_misaligned(ctx, misaligned, cases)
     bad = 0
